@@ -332,3 +332,115 @@ def violation_filter_general(vs, x):
     use(vgreedy_members, vs, [], x)
     use(vgreedy_maximal, vs, [], x)
     return implies(x in r, x in vs) and implies(x in vs, x in r or any(voverlap(x, k) for k in r))
+
+
+# =================================================================== grouping by file and the two public entry points
+from pyvc.api import Assoc, uf  # noqa: E402
+
+BG = "src/linters/dry/block_grouper.py::BlockGrouper."
+BlockGroups = Assoc(Blocks, keyty=PathT)        # dict[Path, list[CodeBlock]] in insertion order
+ViolationGroups = Assoc(Violations)             # dict[str, list[Violation]]
+GrouperT = Rec("BlockGrouper", cls="src/linters/dry/block_grouper.py::BlockGrouper",
+               pycls="src.linters.dry.block_grouper:BlockGrouper")
+DedupT = Rec("ViolationDeduplicator", cls="src/linters/dry/deduplicator.py::ViolationDeduplicator",
+             pycls="src.linters.dry.deduplicator:ViolationDeduplicator", _grouper=GrouperT, _filter=FilterT)
+
+
+def _group_blocks_native(blocks):
+    out = {}
+    for b in blocks:
+        out.setdefault(b.file_path, []).append(b)
+    return out
+
+
+def _group_violations_native(violations):
+    out = {}
+    for v in violations:
+        out.setdefault(v.file_path, []).append(v)
+    return out
+
+
+block_groups = uf("dry_block_groups", [Blocks], BlockGroups, concrete=_group_blocks_native)
+violation_groups = uf("dry_violation_groups", [Violations], ViolationGroups, concrete=_group_violations_native)
+
+
+@contract(BG + "group_blocks_by_file", props=["C03"], types=dict(self=GrouperT, blocks=Blocks), returns=BlockGroups,
+          assumed="plumbing: builds a dict of lists keyed by Path objects (in-place append through a dict lookup; dicts with "
+                  "non-string keys and aliased list values are outside the engine). Assumed: one entry per distinct "
+                  "file_path; the entry of a path is the order-preserving sub-list of the blocks with that path")
+class GroupBlocksByFile:
+    def value(blocks):
+        return block_groups(blocks)
+
+    def ensures_each_group_is_the_blocks_of_its_file(blocks, result):
+        return all(grp == [b for b in blocks if b.file_path == key] for key, grp in result)
+
+    def ensures_every_file_has_a_group(blocks, result):
+        return all(any(key == b.file_path for key, grp in result) for b in blocks)
+
+
+@contract(BG + "group_violations_by_file", props=["C03"], types=dict(self=GrouperT, violations=Violations),
+          returns=ViolationGroups,
+          assumed="plumbing: dict of lists keyed by file path, in-place append through a dict lookup (aliased list values). "
+                  "Assumed: one entry per distinct file_path holding the order-preserving sub-list of its violations")
+class GroupViolationsByFile:
+    def value(violations):
+        return violation_groups(violations)
+
+    def ensures_each_group_is_the_violations_of_its_file(violations, result):
+        return all(grp == [v for v in violations if v.file_path == key] for key, grp in result)
+
+    def ensures_every_file_has_a_group(violations, result):
+        return all(any(key == v.file_path for key, grp in result) for v in violations)
+
+
+def per_file(file_blocks):
+    return greedy(sorted(file_blocks, key=lambda b: b.start_line), [])
+
+
+@opaque
+def dedup_groups(gs: SeqOf(Blocks)) -> Blocks:
+    """Concatenation, group by group, of the per-file selections."""
+    if len(gs) == 0:
+        return []
+    return per_file(gs[0]) + dedup_groups(gs[1:])
+
+
+@contract(D + "deduplicate_blocks", props=["C03"],
+          types=dict(self=DedupT, blocks=Blocks, grouped=BlockGroups, deduplicated=Blocks, file_blocks=Blocks, kept=Blocks),
+          returns=Blocks)
+class DeduplicateBlocks:
+    def reveals(blocks):
+        return reveal(dedup_groups, [])
+
+    def value(blocks):
+        return dedup_groups(list(block_groups(blocks).values())) if len(blocks) > 0 else []
+
+    def inv0(grouped, deduplicated, rest):
+        return reveal(dedup_groups, rest) and dedup_groups(list(grouped.values())) == deduplicated + dedup_groups(rest)
+
+
+def per_file_violations(file_violations):
+    return vgreedy(sorted(file_violations, key=lambda v: v.line or 0), [])
+
+
+@opaque
+def vdedup_groups(gs: SeqOf(Violations)) -> Violations:
+    if len(gs) == 0:
+        return []
+    return per_file_violations(gs[0]) + vdedup_groups(gs[1:])
+
+
+@contract(D + "deduplicate_violations", props=["C03"],
+          types=dict(self=DedupT, violations=Violations, grouped=ViolationGroups, deduplicated=Violations,
+                     file_violations=Violations, sorted_violations=Violations, kept=Violations),
+          returns=Violations)
+class DeduplicateViolations:
+    def reveals(violations):
+        return reveal(vdedup_groups, [])
+
+    def value(violations):
+        return vdedup_groups(list(violation_groups(violations).values())) if len(violations) > 0 else []
+
+    def inv0(grouped, deduplicated, rest):
+        return reveal(vdedup_groups, rest) and vdedup_groups(list(grouped.values())) == deduplicated + vdedup_groups(rest)
